@@ -14,7 +14,7 @@ MODULES = ["TLVerif.Props.C39"]
 THEOREMS = ["TLVerif.Props.C39." + t for t in [
     "pool_limit_configured", "busy_le_create", "get_blocks_when_full", "recheck_keeps_waiting_when_full",
     "admitted_only_below_limit", "put_then_recheck_admits", "closed_pool_admits_nothing",
-    "reqmem_within_limit", "admitted_requests_bounded", "admitted_only_if_fits", "not_fitting_waits", "requestBufTake_ge",
+    "reqmem_within_limit", "failed_acquire_releases_nothing", "cancelled_waiter_never_accounted", "admitted_requests_bounded", "admitted_only_if_fits", "not_fitting_waits", "requestBufTake_ge",
     "max_packet_fits_limit", "code_shape"]]
 
 
@@ -160,7 +160,9 @@ def oracle_rm(c, line, out):
     ops = f[3].split(",") if f[3] != "-" else []
     steps, tail = parse_steps(out)
     if tail in ("bad-op", "CRASH", "panic", "bad"):
-        c.oracle_fail(line, "request-memory history not executable / semaphore panicked: %s" % out[-100:], line)
+        c.oracle_fail(line, "request-memory history not executable%s: %s" % (
+            " — the server panicked (semaphore: released more than held): memory that was never acquired was given back" if tail == "panic" else "",
+            out[-100:]), line)
         return
     held = {}
     want = {}
@@ -172,6 +174,9 @@ def oracle_rm(c, line, out):
         if op[0] == "a":
             rid, body = op[1:].split(":")
             want[int(rid)] = max(int(body), buf)
+        if op[0] == "k":  # a packet on its own connection, through the real receive loop: header.length counts the framing
+            rid, body = op[1:].split(":")
+            want[int(rid)] = max(int(body) + 16, buf)
         cur0 = sum(held.values())
         for e in evs:
             rid = int(e[1:])
@@ -189,10 +194,13 @@ def oracle_rm(c, line, out):
         if sz != size or cur > size or cur < 0:
             c.oracle_fail(line, "after op %d (%s): accounted request memory %d outside [0, %d]" % (i, op, cur, size), line)
         if cur != sum(held.values()):
-            c.oracle_fail(line, "after op %d (%s): semaphore says %d bytes, admitted unreleased requests sum to %d" % (i, op, cur, sum(held.values())), line)
+            c.oracle_fail(line, "after op %d (%s): the server accounts %d bytes of request memory (RequestsMemory), the admitted unreleased "
+                          "requests (running handlers) hold %d%s" % (i, op, cur, sum(held.values()),
+                                                                    ": a request that never got memory gave some back, the server will admit that much "
+                                                                    "beyond the limit" if op[0] == "x" and cur < sum(held.values()) else ""), line)
 
 
-def gen_rm_random(rng, n, size, buf):
+def gen_rm_random(rng, n, size, buf, viaconn=False):
     ops = []
     nid = 1
     live = []
@@ -201,7 +209,10 @@ def gen_rm_random(rng, n, size, buf):
         if r < 50 or not live:
             k = rng.below(10)
             body = rng.below(buf + 1) if k < 3 else (rng.range(1, max(1, size // 3)) if k < 8 else rng.range(size // 2, size + size // 4 + 2))
-            ops.append("a%d:%d" % (nid, body))
+            if viaconn and rng.chance(2, 3) and body <= 1 << 20:
+                ops.append("k%d:%d" % (nid, max(12, body // 4 * 4)))
+            else:
+                ops.append("a%d:%d" % (nid, body))
             live.append(nid)
             nid += 1
         elif r < 85:
@@ -252,6 +263,19 @@ def run(c):
             # an id is acquired at most once per line
             if all(p.count(a) <= 1 for a in alpha[:4]):
                 lines.append("rpccalls.rm 10 3 " + (",".join(p) or "-"))
+    # the same through the real receive loop (k = packet on its own connection, x = that connection closed while the
+    # request waits for memory, r = its handler returns)
+    alphak = ["k1:12", "k2:24", "a3:30", "k4:100", "k5:12", "r1", "r2", "r3", "x2", "x4", "x5"]
+    for n in range(0, (5 if c.thorough else 4) + 1):
+        for p in product(alphak, n):
+            if all(p.count(a) <= 1 for a in alphak[:5]):
+                lines.append("rpccalls.rm 70 30 " + (",".join(p) or "-"))
+    lines += ["rpccalls.rm 100 40 a1:90,k2:24,x2", "rpccalls.rm 100 40 k1:24,k2:44,a3:5,k4:20,x4,r1,k5:200,x2,r2,r3"]
+    for i in range(15000 if c.thorough else 3000):
+        size = rng.choice([64, 100, 1000, 4096, 100000])
+        buf = rng.choice([0, 16, 28, size // 10 + 1, size // 3 + 1, size]) if rng.chance(1, 2) else rng.below(50)
+        ops = gen_rm_random(rng, rng.range(3, 30), size, buf, viaconn=True)
+        lines.append("rpccalls.rm %d %d %s" % (size, buf, ",".join(ops)))
     for i in range(15000 if c.thorough else 2500):
         size = rng.choice([1, 10, 64, 100, 1000, 4096, 16777215])
         buf = rng.choice([0, 1, size // 10 + 1, size // 3 + 1, size, size + 5]) if rng.chance(1, 2) else rng.below(min(size, 50) + 1)
